@@ -49,7 +49,19 @@ func main() {
 					for _, d := range f.Decls {
 						if gd, ok := d.(*ast.GenDecl); ok && gd.Tok == token.TYPE {
 							for _, sp := range gd.Specs {
-								lines = append(lines, name+"\t"+m.Rel(p.PkgPath)+"\ttype "+sp.(*ast.TypeSpec).Name.Name)
+								ts := sp.(*ast.TypeSpec)
+								shape := ""
+								if tn, ok := p.TypesInfo.Defs[ts.Name].(*types.TypeName); ok {
+									shape = core.TypeShape(tn)
+									if st, ok := tn.Type().Underlying().(*types.Struct); ok {
+										for i := 0; i < st.NumFields(); i++ {
+											if f := st.Field(i); !f.Embedded() {
+												lines = append(lines, name+"\t"+m.Rel(p.PkgPath)+"\tfield "+ts.Name.Name+"."+f.Name()+"\t"+types.TypeString(f.Type(), types.RelativeTo(p.Types)))
+											}
+										}
+									}
+								}
+								lines = append(lines, name+"\t"+m.Rel(p.PkgPath)+"\ttype "+ts.Name.Name+"\t"+shape)
 							}
 						}
 						if fd, ok := d.(*ast.FuncDecl); ok {
